@@ -359,7 +359,7 @@ func TestRandomProviders(t *testing.T) {
 	r := evid.R()
 	dir := t.TempDir()
 	n := 0
-	r.Check(t, r.Scale(3000, 60000), 1, func(t *rapid.T) {
+	r.Check(t, r.Scale(12000, 150000), 1, func(t *rapid.T) {
 		n++
 		s := genTokenString(t)
 		ms := genNetrc(t)
@@ -461,7 +461,7 @@ func TestLoopback(t *testing.T) {
 	servers := map[string]*recServer{a.addr(): a, b.addr(): b}
 	addrs := []string{a.addr(), b.addr()}
 	n := 0
-	r.Check(t, r.Scale(200, 3000), 2, func(t *rapid.T) {
+	r.Check(t, r.Scale(600, 6000), 2, func(t *rapid.T) {
 		n++
 		// entries: each server address may get a token in BUF_TOKEN and/or in netrc; plus decoys
 		var parts []string
@@ -590,7 +590,7 @@ func TestConcurrentClients(t *testing.T) {
 	a, b := newRecServer(), newRecServer()
 	defer a.srv.Close()
 	defer b.srv.Close()
-	r.Check(t, r.Scale(40, 800), 3, func(t *rapid.T) {
+	r.Check(t, r.Scale(160, 2000), 3, func(t *rapid.T) {
 		tokA, tokB := genWord.Draw(t, "tokA"), genWord.Draw(t, "tokB")
 		if tokA == tokB {
 			tokB += "x"
